@@ -385,8 +385,17 @@ func (d *pathParamDecoder) DecodePrimitive(param string, sm *openapi3.Serializat
 	if err != nil {
 		return nil, ok, err
 	}
-	val, err := parsePrimitive(src, schema)
+	val, err := parsePrimitive(unescapePathValue(src), schema)
 	return val, ok, err
+}
+
+// unescapePathValue percent-decodes one value taken from a path parameter:
+// routers return path parameters as they appear in the request path.
+func unescapePathValue(s string) string {
+	if unescaped, err := url.PathUnescape(s); err == nil {
+		return unescaped
+	}
+	return s
 }
 
 func (d *pathParamDecoder) DecodeArray(param string, sm *openapi3.SerializationMethod, schema *openapi3.SchemaRef) ([]any, bool, error) {
@@ -423,7 +432,11 @@ func (d *pathParamDecoder) DecodeArray(param string, sm *openapi3.SerializationM
 	if err != nil {
 		return nil, ok, err
 	}
-	val, err := parseArray(strings.Split(src, delim), schema)
+	items := strings.Split(src, delim)
+	for i, item := range items {
+		items[i] = unescapePathValue(item)
+	}
+	val, err := parseArray(items, schema)
 	return val, ok, err
 }
 
@@ -469,9 +482,13 @@ func (d *pathParamDecoder) DecodeObject(param string, sm *openapi3.Serialization
 	if err != nil {
 		return nil, ok, err
 	}
-	props, err := propsFromString(src, propsDelim, valueDelim)
+	rawProps, err := propsFromString(src, propsDelim, valueDelim)
 	if err != nil {
 		return nil, ok, err
+	}
+	props := make(map[string]string, len(rawProps))
+	for name, value := range rawProps {
+		props[unescapePathValue(name)] = unescapePathValue(value)
 	}
 
 	val, err := makeObject(props, schema)
